@@ -31,6 +31,9 @@ struct Rl {
     late_ticks: usize,
     /// depth bound of this configuration (None: the tier's default)
     depth: Option<usize>,
+    /// refresh period and timeout are multiplied by this, and so is the explorer's time grid:
+    /// 1 (period 40 ms), or 101 for the seconds-range configurations (period 4.04 s)
+    scale: u64,
 }
 
 struct X {
@@ -110,11 +113,17 @@ fn do_arrive(w: &mut World, svc: &Svc, c: usize) {
 }
 
 impl Rl {
+    fn period(&self) -> u64 {
+        PERIOD * self.scale
+    }
+    fn timeout_ms(&self) -> u64 {
+        self.timeout * self.scale
+    }
     /// admissions that any implementation must count against a caller arriving now
     fn lookback(&self) -> u64 {
         match self.window {
-            WindowType::SlidingCounter => 2 * PERIOD,
-            _ => PERIOD,
+            WindowType::SlidingCounter => 2 * self.period(),
+            _ => self.period(),
         }
     }
     fn recent_admissions(&self, w: &World) -> usize {
@@ -130,7 +139,7 @@ impl Scenario for Rl {
         self.prop
     }
     fn label(&self) -> String {
-        format!("ratelimiter window={} limit={} period={}ms timeout={}ms callers={}{}", wname(self.window), self.limit, PERIOD, self.timeout, self.callers, if self.late_ticks > 0 { " late-polls" } else if self.depth.is_some() { " long-run" } else { "" })
+        format!("ratelimiter window={} limit={} period={}ms timeout={}ms callers={}{}", wname(self.window), self.limit, self.period(), self.timeout_ms(), self.callers, if self.late_ticks > 0 { " late-polls" } else if self.depth.is_some() { " long-run" } else { "" })
     }
     fn callers(&self) -> usize {
         self.callers
@@ -141,11 +150,14 @@ impl Scenario for Rl {
     fn late_ticks(&self) -> usize {
         self.late_ticks
     }
+    fn grid_ms(&self) -> u64 {
+        10 * self.scale
+    }
     fn init(&self, w: &mut World) -> X {
         let layer = RateLimiterLayer::builder()
             .limit_for_period(self.limit)
-            .refresh_period(Duration::from_millis(PERIOD))
-            .timeout_duration(Duration::from_millis(self.timeout))
+            .refresh_period(Duration::from_millis(self.period()))
+            .timeout_duration(Duration::from_millis(self.timeout_ms()))
             .window_type(self.window)
             .build();
         X { svc: layer.layer(GatedInner::new(w.inner.clone())), pre: None }
@@ -186,22 +198,22 @@ impl Scenario for Rl {
         match self.window {
             WindowType::SlidingLog => {
                 for i in 0..adm.len() {
-                    if i + self.limit < adm.len() && adm[i + self.limit] - adm[i] < PERIOD {
+                    if i + self.limit < adm.len() && adm[i + self.limit] - adm[i] < self.period() {
                         out.push(Viol::new(
                             "window_overrun",
                             site,
-                            format!("admissions {:?}: {} consecutive admissions span {}ms < period {}ms (limit {})", adm, self.limit + 1, adm[i + self.limit] - adm[i], PERIOD, self.limit),
+                            format!("admissions {:?}: {} consecutive admissions span {}ms < period {}ms (limit {})", adm, self.limit + 1, adm[i + self.limit] - adm[i], self.period(), self.limit),
                         ));
                         break;
                     }
                 }
             }
             _ => {
-                if !cut_exists(&adm, self.limit, PERIOD) {
+                if !cut_exists(&adm, self.limit, self.period()) {
                     out.push(Viol::new(
                         "window_overrun",
                         site,
-                        format!("admissions {:?}: no cut into consecutive windows >= {}ms with <= {} admissions each exists", adm, PERIOD, self.limit),
+                        format!("admissions {:?}: no cut into consecutive windows >= {}ms with <= {} admissions each exists", adm, self.period(), self.limit),
                     ));
                 }
             }
@@ -232,8 +244,34 @@ impl Scenario for Rl {
                         out.push(Viol::new("rejected_reached_inner", site, format!("caller {c} was rejected but reached the inner service")));
                     }
                     let d = cl.done_ms.unwrap();
-                    if self.late_ticks == 0 && d > fp + self.timeout {
-                        out.push(Viol::new("decided_after_timeout", site, format!("caller {c} arrived {fp}, rejected at {d}, timeout {}", self.timeout)));
+                    // "... and otherwise rejected": for the sliding log the instant at which a
+                    // slot opens is fixed by the admissions alone (the limit-th newest one ages
+                    // out), so a caller that nobody competes with must not be rejected when
+                    // that instant lies within its timeout
+                    if self.window == WindowType::SlidingLog && self.late_ticks == 0 {
+                        let before: Vec<u64> = adm.iter().copied().filter(|t| *t <= d).collect();
+                        if before.len() >= self.limit {
+                            let t_open = before[before.len() - self.limit] + self.period();
+                            let alone = w.callers.iter().enumerate().all(|(o, ol)| {
+                                if o == c {
+                                    return true;
+                                }
+                                let Some(ofp) = ol.first_poll_ms else { return true };
+                                // the other caller was decided in its first poll, or came after the slot opened
+                                let o_adm = ol.req.as_ref().and_then(|r| w.inner_calls_for_req(r.id).first().map(|&k| w.inner.lock().unwrap().calls[k].start_ms));
+                                ofp > t_open || o_adm == Some(ofp) || (ol.done_ms == Some(ofp) && o_adm.is_none())
+                            });
+                            if alone && t_open <= fp + self.timeout_ms() && t_open >= fp {
+                                out.push(Viol::new(
+                                    "rejected_although_a_slot_opens_in_time",
+                                    site,
+                                    format!("caller {c} arrived at {fp} (timeout {}ms) and was rejected at {d}, although with admissions {:?} a slot opens at {t_open} and nobody else was waiting for it", self.timeout_ms(), before),
+                                ));
+                            }
+                        }
+                    }
+                    if self.late_ticks == 0 && d > fp + self.timeout_ms() {
+                        out.push(Viol::new("decided_after_timeout", site, format!("caller {c} arrived {fp}, rejected at {d}, timeout {}", self.timeout_ms())));
                     }
                 }
                 Phase::Done(Outcome::Ok(_)) | Phase::Done(Outcome::Inner(_)) => {
@@ -242,15 +280,15 @@ impl Scenario for Rl {
                     }
                 }
                 Phase::Live => {
-                    if self.late_ticks == 0 && admitted_at.is_none() && now > fp + self.timeout {
-                        out.push(Viol::new("undecided_after_timeout", site, format!("caller {c} arrived {fp}, still undecided at {now}, timeout {}", self.timeout)));
+                    if self.late_ticks == 0 && admitted_at.is_none() && now > fp + self.timeout_ms() {
+                        out.push(Viol::new("undecided_after_timeout", site, format!("caller {c} arrived {fp}, still undecided at {now}, timeout {}", self.timeout_ms())));
                     }
                 }
                 _ => {}
             }
             if let Some(t) = admitted_at {
-                if self.late_ticks == 0 && t > fp + self.timeout {
-                    out.push(Viol::new("decided_after_timeout", site, format!("caller {c} arrived {fp}, admitted at {t}, timeout {}", self.timeout)));
+                if self.late_ticks == 0 && t > fp + self.timeout_ms() {
+                    out.push(Viol::new("decided_after_timeout", site, format!("caller {c} arrived {fp}, admitted at {t}, timeout {}", self.timeout_ms())));
                 }
             }
             if let (Phase::Dropped, Some(d)) = (&cl.phase, cl.dropped_ms) {
@@ -282,7 +320,7 @@ impl Scenario for Rl {
                     if t > fp {
                         v.push("admitted_after_waiting");
                     }
-                    if fp % PERIOD == 0 && fp > 0 && t == fp {
+                    if fp % self.period() == 0 && fp > 0 && t == fp {
                         v.push("admitted_on_period_boundary");
                     }
                 }
@@ -312,7 +350,7 @@ impl Scenario for Rl {
         let sig: Vec<String> = w.callers.iter().map(|c| match &c.phase { Phase::Done(o) => o.tag(), p => format!("{p:?}") }).collect();
         if self.prop == "C15" {
             // idle for two full periods, then `limit` arrivals must all be admitted at once
-            w.advance(2 * PERIOD);
+            w.advance(2 * self.period());
             let base = w.callers.len();
             let mut ok = vec![];
             for i in 0..self.limit {
@@ -347,25 +385,29 @@ fn configs(prop: &'static str, tier: Tier) -> Vec<Rl> {
                     Tier::Quick => limit + 2,
                     Tier::Thorough => 4,
                 };
-                v.push(Rl { prop, window, limit, timeout, callers, max_ticks: tier.pick(9, 12), max_drops: tier.pick(1, 2), late_ticks: 0, depth: None });
+                v.push(Rl { prop, window, limit, timeout, callers, max_ticks: tier.pick(9, 12), max_drops: tier.pick(1, 2), late_ticks: 0, depth: None, scale: 1 });
             }
         }
         // a long, drop-free run over more than two periods with limit 2 (quick tier: the
         // general configurations stop at 9 ticks): bucket bookkeeping that drifts with the
         // instants of the calls shows only after a call in the middle of the second period
         if tier == Tier::Quick && window == WindowType::SlidingCounter {
-            v.push(Rl { prop, window, limit: 2, timeout: 10, callers: 4, max_ticks: 11, max_drops: 0, late_ticks: 0, depth: Some(18) });
+            v.push(Rl { prop, window, limit: 2, timeout: 10, callers: 4, max_ticks: 11, max_drops: 0, late_ticks: 0, depth: Some(18), scale: 1 });
         }
         // thorough: every window type over four and a half periods, three callers, no drops
         if tier == Tier::Thorough {
             for (limit, timeout) in [(1usize, 10u64), (2, 10), (1, 40), (2, 40)] {
-                v.push(Rl { prop, window, limit, timeout, callers: 3, max_ticks: 18, max_drops: 0, late_ticks: 0, depth: Some(26) });
+                v.push(Rl { prop, window, limit, timeout, callers: 3, max_ticks: 18, max_drops: 0, late_ticks: 0, depth: Some(26), scale: 1 });
             }
+        }
+        // everything in the seconds range: period 4.04 s, timeouts 1.01 s and 6.06 s, on a 1.01 s grid
+        for timeout in [10u64, 60] {
+            v.push(Rl { prop, window, limit: 1, timeout, callers: 3, max_ticks: tier.pick(9, 12), max_drops: 1, late_ticks: 0, depth: None, scale: 101 });
         }
         // a late executor: waiters woken for the next window are polled up to two ticks late
         // (the decided-within-timeout clause presupposes prompt polling and is not judged here)
         for timeout in tier.pick(vec![100u64], vec![40, 100]) {
-            v.push(Rl { prop, window, limit: 1, timeout, callers: 3, max_ticks: tier.pick(8, 10), max_drops: tier.pick(0, 1), late_ticks: 2, depth: None });
+            v.push(Rl { prop, window, limit: 1, timeout, callers: 3, max_ticks: tier.pick(8, 10), max_drops: tier.pick(0, 1), late_ticks: 2, depth: None, scale: 1 });
         }
     }
     v
